@@ -106,8 +106,10 @@ func (ym *YamlMap) setValue(item *YamlKeyValue) {
 	for i := range ym.Items {
 		if ym.Items[i].Key.Value == item.Key.Value {
 			// Items can be shared with other maps (MergeMaps makes a shallow copy),
-			// so replace the entry instead of modifying it in place.
-			ym.Items[i] = &YamlKeyValue{Key: ym.Items[i].Key, Value: item.Value}
+			// so replace the entry instead of modifying it in place. The overriding
+			// entry keeps its own key: key and value then come from the same place
+			// in the file and line ranges built from them are never reversed.
+			ym.Items[i] = item
 			return
 		}
 	}
